@@ -133,8 +133,9 @@ L['C12'] = dict(modules=['Schc.Properties.C12'], level='proof', technique='Lean 
               T('C12_roundtrip_context', 'full', 'Context'),
               T('C12_redump', 'full', 're-serialising the reloaded context gives the same JSON'),
               T('C12_same_behaviour', 'full', 'any function of the context (manager compress / decompress / matching) gives the same result on the reloaded context'),
-              T('C12_pyEq', 'full', 'the reloaded context compares equal under the library\'s __eq__ methods')],
-    level_text='Proved for all buffers (any length, alignment, side) and all contexts whose mappings are invertible (distinct values, prefix-free indices) and whose no-compression rules carry no descriptors. Equality is literal in a model that keeps everything the code can observe, so equal behaviour is congruence. Trusted: json.dumps/json.loads on a tree of dict/list/str/int; that enum members reloaded as plain str are only compared with == / in (watched by the json stream, which drives original and reloaded contexts through the real manager and compares SCHC packets and decompressed packets). FieldDescriptor / HeaderDescriptor / PacketDescriptor round trips are modelled and compared by correspondence; their theorems are the Buffer theorem applied fieldwise and are not separately stated.')
+              T('C12_pyEq', 'full', 'the reloaded context compares equal under the library\'s __eq__ methods'),
+              T('C12_roundtrip_field', 'full', 'FieldDescriptor'), T('C12_roundtrip_packet', 'full', 'PacketDescriptor (direction, fields, payload, raw)')],
+    level_text='Proved for all buffers (any length, alignment, side) and all contexts whose mappings are invertible (distinct values, prefix-free indices) and whose no-compression rules carry no descriptors. Equality is literal in a model that keeps everything the code can observe, so equal behaviour is congruence. Trusted: json.dumps/json.loads on a tree of dict/list/str/int; that enum members reloaded as plain str are only compared with == / in (watched by the json stream, which drives original and reloaded contexts through the real manager and compares SCHC packets and decompressed packets). FieldDescriptor and PacketDescriptor round trips are C12_roundtrip_field / C12_roundtrip_packet; HeaderDescriptor (id, length, fields) has the same shape and is compared by correspondence only.')
 
 L['C13'] = dict(modules=['Schc.Properties.C13'], level='proof', technique='Lean 4 refinement of the byte-level Buffer model (constructor, shift loops, re-padding) to bit lists',
     theorems=[T('C13_canonical', 'full', 'every Buffer the constructor returns is the canonical Buffer of its bits, for ANY content'),
